@@ -228,7 +228,7 @@ def _fn_of(it, site) -> str:
     return best.qual.split("::")[1] if best else "<module>"
 
 
-def r084(an, rep):
+def r084(an, rep, rule="R08.4"):
     tg = an.tg
     prog = an.prog
     eqm = prog.cls("code_data::Constant").methods.get("__eq__")
@@ -269,7 +269,7 @@ def r084(an, rep):
                 arm = (names, body, node)
                 break
         if arm is None:
-            rep.add("R08.4", f"{cur.qual}::{leaf}", False, w0, f"constant type {leaf} has no arm in the key function: such constants cannot be compared/encoded")
+            rep.add(rule, f"{cur.qual}::{leaf}", False, w0, f"constant type {leaf} has no arm in the key function: such constants cannot be compared/encoded")
             continue
         names, body, node = arm
         rets = returns_of(body)
@@ -301,27 +301,27 @@ def r084(an, rep):
                         why += f"; {len(sign)} sign-of-zero and {len(nan)} NaN-canonicalised component(s)"
             if ok and leaf == "bool":
                 why += " (bool shares the int arm; type(value) keeps True and 1 apart)"
-            rep.add("R08.4", f"{cur.qual}::{leaf}", ok, w, why)
+            rep.add(rule, f"{cur.qual}::{leaf}", ok, w, why)
         elif leaf in ("tuple", "frozenset"):
             ctor = isinstance(rv, ast.Call) and isinstance(rv.func, ast.Name) and rv.func.id == leaf
             rec = bool(called_names(rv) & keynames)
             ok = ctor and rec
-            rep.add("R08.4", f"{cur.qual}::{leaf}", ok, w,
+            rep.add(rule, f"{cur.qual}::{leaf}", ok, w,
                     f"key is {leaf}(...) of the element keys (recursion through {sorted(called_names(rv) & keynames)})" if ok
                     else f"{leaf} constants are not keyed element-wise through the key function: (1,) and (True,) / (0.0,) and (-0.0,) merge")
         else:
             ok = isinstance(rv, ast.Name) and rv.id == p or (isinstance(rv, ast.Tuple) and any(isinstance(e, ast.Name) and e.id == p for e in rv.elts))
-            rep.add("R08.4", f"{cur.qual}::{leaf}", ok, w, "value is its own key (no cross-type equality among str/bytes/None/Ellipsis)" if ok
+            rep.add(rule, f"{cur.qual}::{leaf}", ok, w, "value is its own key (no cross-type equality among str/bytes/None/Ellipsis)" if ok
                     else "key does not contain the value", nontrivial=False)
     # fallthrough must raise
     raises = any(isinstance(st, ast.Raise) for st in rest)
-    rep.add("R08.4", f"{cur.qual}::unknown type", raises, w0,
+    rep.add(rule, f"{cur.qual}::unknown type", raises, w0,
             "an unknown constant type raises" if raises else "an unknown constant type falls through without raising")
     # CodeData arm of the outer key function
     if kf is not cur:
         arms2, _ = isinstance_arms(kf, kf.params[0])
         ok = any("CodeData" in names for names, _, _ in arms2) and bool(called_names(kf.node) & {cur.name})
-        rep.add("R08.4", f"{kf.qual}::CodeData + delegation", ok, loc(kf.module, kf.node),
+        rep.add(rule, f"{kf.qual}::CodeData + delegation", ok, loc(kf.module, kf.node),
                 "nested code objects are their own key; everything else is keyed by the inner key function" if ok else "outer key function does not delegate to the inner one")
 
 
